@@ -76,12 +76,21 @@ fn pattern(n: usize) -> Vec<u8> {
 	(0..n).map(|i| (i as u8).wrapping_mul(7).wrapping_add(1)).collect()
 }
 
+/// Like [`spec`], with a whitelist of offsets whose substitution may decode to the same message.
+fn spec_absorbing<M: Msg>(
+	name: &'static str, dispatched: bool, strip: Option<fn(&M) -> M>, known_tlv_types: &'static [u64], rejects: Vec<Reject>,
+	base: M, dims: Vec<Dim<M>>, cap: usize, absorb_ok: fn(&M, &[u8], usize) -> bool,
+) -> Box<dyn TypeRunner> {
+	let type_id = base.type_id();
+	Box::new(Spec { name, type_id, dispatched, strip, known_tlv_types, absorb_ok: Some(absorb_ok), rejects, gen: generate(&base, dims, cap) })
+}
+
 fn spec<M: Msg>(
 	name: &'static str, dispatched: bool, strip: Option<fn(&M) -> M>, known_tlv_types: &'static [u64], rejects: Vec<Reject>,
 	base: M, dims: Vec<Dim<M>>, cap: usize,
 ) -> Box<dyn TypeRunner> {
 	let type_id = base.type_id();
-	Box::new(Spec { name, type_id, dispatched, strip, known_tlv_types, rejects, gen: generate(&base, dims, cap) })
+	Box::new(Spec { name, type_id, dispatched, strip, known_tlv_types, absorb_ok: None, rejects, gen: generate(&base, dims, cap) })
 }
 
 fn rej(name: &'static str, off: usize, bytes: Vec<u8>) -> Reject {
@@ -288,7 +297,7 @@ pub fn all_types(cap: usize) -> Vec<Box<dyn TypeRunner>> {
 	let mut t: Vec<Box<dyn TypeRunner>> = Vec::new();
 
 	// ---- BOLT 1 ----
-	t.push(spec(
+	t.push(spec_absorbing(
 		"Init",
 		true,
 		Some(|m: &Init| Init { features: m.features.clone(), networks: None, remote_network_address: None }),
@@ -316,6 +325,10 @@ pub fn all_types(cap: usize) -> Vec<Box<dyn TypeRunner>> {
 			]),
 		],
 		cap,
+		|_m: &Init, e: &[u8], off: usize| {
+			let gflen = u16::from_be_bytes([e[0], e[1]]) as usize;
+			off >= 2 && off < 2 + gflen
+		},
 	));
 	t.push(spec(
 		"ErrorMessage",
@@ -345,7 +358,7 @@ pub fn all_types(cap: usize) -> Vec<Box<dyn TypeRunner>> {
 		],
 		cap,
 	));
-	t.push(spec(
+	t.push(spec_absorbing(
 		"Ping",
 		true,
 		None,
@@ -358,8 +371,9 @@ pub fn all_types(cap: usize) -> Vec<Box<dyn TypeRunner>> {
 			fill_dim("byteslen_fill", 1, |m: &mut Ping, n| m.byteslen = n as u16),
 		],
 		cap,
+		|_m: &Ping, _e: &[u8], off: usize| off >= 4,
 	));
-	t.push(spec(
+	t.push(spec_absorbing(
 		"Pong",
 		true,
 		None,
@@ -371,6 +385,7 @@ pub fn all_types(cap: usize) -> Vec<Box<dyn TypeRunner>> {
 			fill_dim("byteslen_fill", 1, |m: &mut Pong, n| m.byteslen = n as u16),
 		],
 		cap,
+		|_m: &Pong, _e: &[u8], off: usize| off >= 2,
 	));
 	t.push(spec(
 		"PeerStorage",
@@ -830,7 +845,7 @@ pub fn all_types(cap: usize) -> Vec<Box<dyn TypeRunner>> {
 		],
 		cap,
 	));
-	t.push(spec(
+	t.push(spec_absorbing(
 		"UpdateAddHTLC",
 		true,
 		Some(|m: &UpdateAddHTLC| UpdateAddHTLC { blinding_point: None, skimmed_fee_msat: None, hold_htlc: None, accountable: None, ..m.clone() }),
@@ -861,6 +876,9 @@ pub fn all_types(cap: usize) -> Vec<Box<dyn TypeRunner>> {
 			st("accountable", opt(bools()), |m: &mut UpdateAddHTLC, v| m.accountable = v),
 		],
 		cap,
+		|m: &UpdateAddHTLC, e: &[u8], off: usize| {
+			(m.onion_routing_packet.public_key.is_err() && (85..118).contains(&off)) || (m.accountable == Some(false) && off + 1 == e.len())
+		},
 	));
 	t.push(spec(
 		"UpdateFulfillHTLC",
@@ -948,7 +966,7 @@ pub fn all_types(cap: usize) -> Vec<Box<dyn TypeRunner>> {
 					vec![(7u64, blinded_path(3, 300, Some(1)))],
 					vec![(0u64, blinded_path(255, 1, None))],
 					vec![(0u64, blinded_path(1, 60000, None))],
-					(0..400u64).map(|i| (i, blinded_path(1, 50, None))).collect(),
+					(0..100u64).map(|i| (i, blinded_path(1, 50, None))).collect(),
 				],
 				|m: &mut RevokeAndACK, v| m.release_htlc_message_paths = v,
 			),
@@ -1239,4 +1257,66 @@ pub fn all_types(cap: usize) -> Vec<Box<dyn TypeRunner>> {
 	));
 	let _ = (Signature::from_compact, InitFeatures::empty);
 	t
+}
+
+/// Values a *user* can build through public fields but the library itself never constructs; they
+/// are outside the enumerated domain. What the codec does with them is recorded in the evidence
+/// (informational, never a verdict).
+pub fn outside_domain_observations() -> mc_common::Value {
+	use mc_common::json;
+	let mut out = Vec::new();
+	let cu = |flags: u8| ChannelUpdate {
+		signature: sig(0),
+		contents: UnsignedChannelUpdate {
+			chain_hash: ChainHash::BITCOIN,
+			short_channel_id: 0,
+			timestamp: 0,
+			message_flags: flags,
+			channel_flags: 0,
+			cltv_expiry_delta: 0,
+			htlc_minimum_msat: 0,
+			htlc_maximum_msat: 0,
+			fee_base_msat: 0,
+			fee_proportional_millionths: 0,
+			excess_data: vec![],
+		},
+	};
+	for f in [0u8, 2] {
+		let m = cu(f);
+		let d = <ChannelUpdate as LengthReadable>::read_from_fixed_length_buffer(&mut &m.encode()[..]);
+		out.push(json!({
+			"value": format!("ChannelUpdate with message_flags = {} (must_be_one bit clear; the library always sets it)", f),
+			"outcome": match d { Ok(x) => format!("writer forces the bit: decodes to message_flags = {} ({} the constructed value)", x.contents.message_flags, if x == m { "equal to" } else { "differs from" }), Err(e) => format!("does not decode: {:?}", e) },
+		}));
+	}
+	{
+		let m = RevokeAndACK { channel_id: cid0(), per_commitment_secret: [0; 32], next_per_commitment_point: pk(0), release_htlc_message_paths: vec![(0, BlindedMessagePath::from_blinded_path(pk(0), pk(1), vec![]))] };
+		let d = <RevokeAndACK as LengthReadable>::read_from_fixed_length_buffer(&mut &m.encode()[..]);
+		out.push(json!({
+			"value": "RevokeAndACK with a zero-hop blinded path (BlindedMessagePath::from_blinded_path(.., vec![]); the library never builds one)",
+			"outcome": match d { Ok(x) => format!("decodes, equal = {}", x == m), Err(e) => format!("encodes, but the decoder rejects num_hops = 0: {:?}", e) },
+		}));
+	}
+	{
+		let mut m = NodeAnnouncement {
+			signature: sig(0),
+			contents: UnsignedNodeAnnouncement { features: NodeFeatures::empty(), timestamp: 0, node_id: node_ids()[0], rgb: [0; 3], alias: NodeAlias([0; 32]), addresses: vec![], excess_address_data: vec![], excess_data: vec![] },
+		};
+		m.contents.excess_address_data = vec![1, 10, 0, 0, 1, 0x26, 0x07];
+		let d = <NodeAnnouncement as LengthReadable>::read_from_fixed_length_buffer(&mut &m.encode()[..]);
+		out.push(json!({
+			"value": "NodeAnnouncement whose excess_address_data is itself a well-formed IPv4 address descriptor (the decoder only ever puts unknown descriptors there)",
+			"outcome": match d { Ok(x) => format!("decodes to {} address(es) and {} excess bytes, equal = {}", x.contents.addresses.len(), x.contents.excess_address_data.len(), x == m), Err(e) => format!("does not decode: {:?}", e) },
+		}));
+	}
+	{
+		let p = OnionPacket { version: 0, public_key: Err(bitcoin::secp256k1::Error::InvalidSignature), hop_data: [0; 1300], hmac: [0; 32] };
+		let m = UpdateAddHTLC { channel_id: cid0(), htlc_id: 0, amount_msat: 0, payment_hash: PaymentHash([0; 32]), cltv_expiry: 0, skimmed_fee_msat: None, onion_routing_packet: p, blinding_point: None, hold_htlc: None, accountable: None };
+		let d = <UpdateAddHTLC as LengthReadable>::read_from_fixed_length_buffer(&mut &m.encode()[..]);
+		out.push(json!({
+			"value": "UpdateAddHTLC whose onion public_key is Err(InvalidSignature) (only Err(InvalidPublicKey) is ever produced, by the decoder)",
+			"outcome": match d { Ok(x) => format!("decodes, equal = {} (the error variant is not on the wire)", x == m), Err(e) => format!("does not decode: {:?}", e) },
+		}));
+	}
+	mc_common::Value::Array(out)
 }
